@@ -202,6 +202,13 @@ func buildC07(tier string) *core.Plan {
 			c.Eval()
 			c.Trans(2)
 			outs, err = evalTree(enc)
+			if err == nil && c07HasValue(d, "$required") {
+				if s, ok := m.(string); ok && s == "$required" {
+					c.Outcome("REQUIRED-ACCEPTED")
+					c.Fail("required-is-refused", "required-hidden-by-encode", "encode: "+w, map[string]any{"output": outs})
+					return
+				}
+			}
 			if c07Invariant(c, "no-stray-marker-encode", "encode: "+w, outs, err) && err == nil && len(outs) == 1 {
 				if mm, ok := outs[0].(map[string]any); ok {
 					if s, ok := mm["e"].(string); ok {
@@ -211,6 +218,37 @@ func buildC07(tier string) *core.Plan {
 								c.Outcome("MARKER-IN-ENCODED-TEXT")
 								c.Fail("no-stray-marker-encode", "marker-in-encoded-text", "encode: "+w, map[string]any{"marker": mk, "encoded": s})
 								return
+							}
+						}
+					}
+				}
+			}
+			// the list form of $encode, with transforms that would hide a marker in the encoded text
+			for _, tr := range []any{"json", []any{"json", "base64"}} {
+				lenc := map[string]any{"e": []any{core.Clone(d), map[string]any{"$encode": tr}}}
+				c.Eval()
+				c.Trans(2)
+				outs, err = evalTree(lenc)
+				if !c07Invariant(c, "no-stray-marker-encode-list", "encode-list: "+w, outs, err) {
+					return
+				}
+				if err == nil && c07HasValue(d, "$required") {
+					if s, ok := m.(string); ok && s == "$required" {
+						c.Outcome("REQUIRED-ACCEPTED")
+						c.Fail("required-is-refused", "required-hidden-by-encode", "encode-list: "+w, map[string]any{"output": outs})
+						return
+					}
+				}
+				if err == nil && tr == "json" && len(outs) == 1 {
+					if mm, ok := outs[0].(map[string]any); ok {
+						if s, ok := mm["e"].(string); ok {
+							var dec any
+							if json.Unmarshal([]byte(s), &dec) == nil {
+								if mk := c07Scan(dec); mk != "" {
+									c.Outcome("MARKER-IN-ENCODED-TEXT")
+									c.Fail("no-stray-marker-encode-list", "marker-in-encoded-text", "encode-list: "+w, map[string]any{"marker": mk, "encoded": s})
+									return
+								}
 							}
 						}
 					}
